@@ -269,9 +269,10 @@ func (s *Server) blobUploadPost(repoStr string) http.HandlerFunc {
 		}
 		// handle monolithic upload in the POST
 		if dStr != "" {
-			_, err = io.Copy(bc, r.Body)
+			br := &bodyReader{r: r.Body}
+			_, err = io.Copy(bc, br)
 			if err != nil {
-				w.WriteHeader(http.StatusInternalServerError)
+				copyBodyStatus(w, br)
 				s.log.Info("failed to copy blob content", "repo", repoStr, "digest", dStr, "err", err)
 				return
 			}
@@ -431,9 +432,10 @@ func (s *Server) blobUploadPatch(repoStr, sessionID string) http.HandlerFunc {
 			return
 		}
 		// write bytes to blob
-		_, err = io.Copy(bc, r.Body)
+		br := &bodyReader{r: r.Body}
+		_, err = io.Copy(bc, br)
 		if err != nil {
-			w.WriteHeader(http.StatusInternalServerError)
+			copyBodyStatus(w, br)
 			s.log.Error("failed to write blob", "err", err, "repo", repoStr, "sessionID", sessionID)
 			return
 		}
@@ -526,9 +528,10 @@ func (s *Server) blobUploadPut(repoStr, sessionID string) http.HandlerFunc {
 			return
 		}
 		// copy blob content
-		_, err = io.Copy(bc, r.Body)
+		br := &bodyReader{r: r.Body}
+		_, err = io.Copy(bc, br)
 		if err != nil {
-			w.WriteHeader(http.StatusInternalServerError)
+			copyBodyStatus(w, br)
 			s.log.Error("failed to write blob", "err", err, "repo", repoStr, "sessionID", sessionID)
 			return
 		}
@@ -558,6 +561,31 @@ func (s *Server) blobUploadPut(repoStr, sessionID string) http.HandlerFunc {
 		w.Header().Set("location", loc)
 		w.WriteHeader(http.StatusCreated)
 	}
+}
+
+// bodyReader records an error from reading the request body, to tell a client that
+// stopped sending apart from a failure of the storage the body is copied to.
+type bodyReader struct {
+	r   io.Reader
+	err error
+}
+
+func (br *bodyReader) Read(p []byte) (int, error) {
+	n, err := br.r.Read(p)
+	if err != nil && err != io.EOF {
+		br.err = err
+	}
+	return n, err
+}
+
+// copyBodyStatus returns the status for a failed copy of the request body.
+func copyBodyStatus(w http.ResponseWriter, br *bodyReader) {
+	if br.err != nil {
+		w.WriteHeader(http.StatusBadRequest)
+		_ = types.ErrRespJSON(w, types.ErrInfoBlobUploadInvalid("failed to read the request body"))
+		return
+	}
+	w.WriteHeader(http.StatusInternalServerError)
 }
 
 func blobValidRange(cr string, curSize int64) bool {
